@@ -20,6 +20,9 @@ def run(cmd, **kw):
 
 mp = os.path.join(dst, "meta.json")
 meta = json.load(open(mp)) if os.path.exists(mp) else {"property": prop, "rewrites": {}}
+head = run("git -C %s rev-parse HEAD" % os.environ.get("CELMA_REPO_MAIN", "/repo"))[1].strip()
+run("git -C %s checkout -- src" % wt)
+run("git -C %s checkout -q --detach %s" % (wt, head))      # same base as /repo (incl. later fix: commits)
 meta["worktree_base"] = run("git -C %s rev-parse --short HEAD" % wt)[1].strip()
 for f in sorted(os.listdir(bd)):
     if not f.endswith(".diff"):
@@ -31,6 +34,10 @@ for f in sorted(os.listdir(bd)):
         continue
     run("git -C %s checkout -- src" % wt)
     rc, out = run("git -C %s apply %s" % (wt, os.path.join(bd, f)))
+    if rc != 0:          # the worktree moved on to a newer /repo HEAD (later fix: commits): try a 3-way apply
+        run("git -C %s checkout -- src" % wt)
+        rc, out = run("git -C %s apply --3way %s" % (wt, os.path.join(bd, f)))
+        run("git -C %s reset -q" % wt)
     if rc != 0:
         meta["rewrites"][name] = {"applies": False, "msg": out[-300:]}
         continue
